@@ -2,6 +2,7 @@ package e2
 
 import (
 	"fmt"
+	"sort"
 	"strings"
 	"testing"
 	"time"
@@ -620,6 +621,12 @@ func TestC11Pipelined(t *testing.T) {
 				for _, pk := range watch.Publishes() {
 					gotPubs = append(gotPubs, len(pk.Payload))
 				}
+				// (as multisets: the publishes of one connection are handed to different publish workers and may be stored in
+				// either order; C11 speaks of packets being lost, not of their order on different topics)
+				sort.Ints(gotPubs)
+				sortedWant := append([]int{}, wantPubs...)
+				sort.Ints(sortedWant)
+				wantPubs = sortedWant
 				if fmt.Sprint(gotPubs) != fmt.Sprint(wantPubs) && !(len(gotPubs) == 0 && len(wantPubs) == 0) {
 					viol("c11-pipelined-packet-lost", "sent CONNECT + %v: the watcher received publishes of sizes %v, expected %v", p.Follow, gotPubs, wantPubs)
 					return
@@ -803,5 +810,119 @@ func TestC11GracefulShutdown(t *testing.T) {
 		func(rep *vk.Report) {
 			rep.Rule = "Manager.DisconnectClients (the orderly stop of cmd/wasp) with 1 / 2 / 3 / 6 sessions connected, with and without wills, alone or next to a surviving node: it returns, every connection is closed, no registration, record or subscription of the stopped node is left on any node, the survivor's session is untouched"
 			rep.Floor("paths", int64(len(paths)), rep.Nontrivial)
+		})
+}
+
+
+// TestC11SlowAcks: a client that stays within the protocol and its keep-alive but answers late: a QoS 1 / QoS 2 delivery
+// is answered only after 0, 4.5 or 9 s, by which time the broker has sent the packet again once or twice, and the client -
+// as a compliant receiver does - answers EVERY copy it received (PUBACK / PUBREC per PUBLISH copy, PUBCOMP per PUBREL
+// copy). None of these answers is a cause to end the session: it is alive after each of them and its exchange completes.
+func TestC11SlowAcks(t *testing.T) {
+	type ap struct {
+		Qos     int32 `json:"qos"`
+		FirstMs int   `json:"silence_before_answering_publish_ms"`
+		RelMs   int   `json:"silence_before_answering_pubrel_ms"`
+	}
+	var paths []ap
+	for _, f := range []int{0, 4500, 9000} {
+		paths = append(paths, ap{1, f, 0})
+		for _, r := range []int{0, 4500} {
+			paths = append(paths, ap{2, f, r})
+		}
+	}
+	RunPaths(t, "C11", "C11/late-answers-to-every-copy", "TestC11SlowAcks", len(paths), vk.Pick(4*time.Minute, 10*time.Minute),
+		func(t *testing.T, i int, rep *vk.Report) {
+			p := paths[i]
+			RunBubble(t, fmt.Sprintf("p%d", i), func(t *testing.T) {
+				w := NewWorld(t, 1)
+				defer w.Close()
+				viol := func(sig, format string, a ...any) {
+					rep.Violate(vk.Violation{Sig: sig, Msg: fmt.Sprintf("%+v: ", p) + fmt.Sprintf(format, a...), Replay: p})
+				}
+				c := w.NewClient("slow", 1, AckNone)
+				if c.Connect(ConnectOpts{ClientID: "slow", KeepAlive: 60, WillTopic: "will/slow", WillMsg: "gone"}) != 0 {
+					rep.HarnessError("connect failed")
+					return
+				}
+				c.Subscribe(1, p.Qos, "t/#")
+				pub := w.NewClient("pub", 1, AckAll)
+				pub.Connect(ConnectOpts{ClientID: "pub", KeepAlive: 600})
+				pub.Subscribe(1, 0, "will/#")
+				w.Step()
+				pub.Publish("t/x", "m", 1, false, 3)
+				w.Step()
+				pings := 0
+				alive := func(after string) bool {
+					c.Ping()
+					pings++
+					w.Step()
+					if c.BrokerClosed() || c.Count("PINGRESP") != pings || w.Node(1).Local.Get(c.SessionID) == nil {
+						viol("c11-ended-without-cause:late-answers", "after %s the session was ended (connection closed by the broker: %v, registered: %v): the client answered every copy it was sent, within its keep-alive; inbox %s", after, c.BrokerClosed(), w.Node(1).Local.Get(c.SessionID) != nil, trunc(c.InboxDigest(), 300))
+						return false
+					}
+					return true
+				}
+				w.Idle(time.Duration(p.FirstMs) * time.Millisecond)
+				var id int32
+				copies := 0
+				for _, pk := range c.Publishes() {
+					if string(pk.Topic) == "t/x" {
+						copies++
+						id = pk.MessageId
+					}
+				}
+				if copies == 0 {
+					rep.HarnessError("the delivery never arrived")
+					return
+				}
+				for k := 0; k < copies; k++ {
+					if p.Qos == 1 {
+						c.Send(&packet.PubAck{Header: &packet.Header{}, MessageId: id})
+					} else {
+						c.Send(&packet.PubRec{Header: &packet.Header{}, MessageId: id})
+					}
+					w.Step()
+					if !alive(fmt.Sprintf("answer %d of %d to the copies of the PUBLISH", k+1, copies)) {
+						return
+					}
+				}
+				if p.Qos == 2 {
+					w.Idle(time.Duration(p.RelMs) * time.Millisecond)
+					rels := c.Count(fmt.Sprintf("PUBREL(%d)", id))
+					if rels == 0 {
+						viol("c11-late-answers-no-pubrel", "no PUBREL after PUBREC; inbox %s", trunc(c.InboxDigest(), 300))
+						return
+					}
+					for k := 0; k < rels; k++ {
+						c.Send(&packet.PubComp{Header: &packet.Header{}, MessageId: id})
+						w.Step()
+						if !alive(fmt.Sprintf("PUBCOMP %d of %d", k+1, rels)) {
+							return
+						}
+					}
+				}
+				w.Idle(8 * time.Second)
+				if !alive("8 s of quiet after the exchange completed") {
+					return
+				}
+				for _, pk := range pub.Publishes() {
+					if string(pk.Topic) == "will/slow" {
+						viol("c11-ended-without-cause:late-answers", "the will of the session was published although it never ended")
+						return
+					}
+				}
+				if copies > 1 {
+					MarkNontrivial(fmt.Sprint(p))
+					rep.Nontrivial++
+				}
+				Observe(w, rep)
+				rep.Sample(p)
+			})
+		},
+		func(i int) any { return paths[i] },
+		func(rep *vk.Report) {
+			rep.Rule = "a QoS 1 / QoS 2 delivery answered after 0 / 4.5 / 9 s (1-3 copies sent by then), one answer per copy received, PUBCOMP per PUBREL copy after 0 / 4.5 s; the session is alive (registered, PINGRESP) after every answer and 8 s later, its will is not published; non-trivial = paths with more than one copy"
+			rep.Floor("paths_with_retransmitted_copies", 4, rep.Nontrivial)
 		})
 }
